@@ -48,7 +48,7 @@ def norm(rec):
     o = rec.get("obs")
     if o and isinstance(o.get("dec"), dict):
         res = o["dec"].get("res", [])
-        o["decs"] = [r.get("m", []) if r.get("r") == "msg" else "err" for r in res]
+        o["decs"] = [r.get("m", []) if r.get("r") == "msg" else [-1] for r in res]   # [-1]: decoder error
         if o["dec"].get("guards") == 0 or o["dec"].get("wr_outside"):
             o["guards"] = 0
         o["dec_last"] = o["dec"].get("last")
@@ -274,7 +274,7 @@ def python_events(ck, exe, msgs):
     for b, (k, m, r, fr) in enumerate(cases):
         rs = by.get(b, [])
         o = (rs[0].get("obs") or {}) if rs and rs[0].get("a") == "run" else {"res": [{"r": "err"}]}
-        decs = [x.get("m", []) if x.get("r") == "msg" else "err" for x in o.get("res", [])]
+        decs = [x.get("m", []) if x.get("r") == "msg" else [-1] for x in o.get("res", [])]
         evs.append({"a": "pyenc", "arg": {"kind": k, "m": 0, "msg": m}, "b": b, "i": 0,
                     "obs": {"ret": r, "frame": fr, "decs": decs}})
     pybehs = [[{"a": "pyenc", "arg": {"kind": k, "m": 0, "msg": m, "path": "python"}}] for (k, m, r, fr) in cases]
